@@ -82,6 +82,12 @@ const MacroOrphanSnapshot = "Macro/delete-topic-snapshot-orphan-prune-seek"
 // - and a second seek to the beginning must revive them once more.
 const MacroDoubleSeek = "Macro/ack-wait-seek-ack-wait-seek"
 
+// MacroPrunePredecessor: two same-key messages on an ordered subscription, the
+// first is pulled and acknowledged, the completed-deliveries job runs before
+// the second has been delivered (the second row references the first), then
+// the subscription is pulled: the successor must still be there.
+const MacroPrunePredecessor = "Macro/ordered-pair-ack-first-prune-pull"
+
 // lazyAckOut is a queue-only pseudo operation: when it is popped it becomes an
 // Ack of whatever is outstanding on the subscription at THAT moment (handles
 // of a pull that is still ahead in the queue cannot be named in advance).
@@ -522,6 +528,24 @@ func (g *Gen) Next() Op {
 			}
 			g.queue = append([]Op{{K: OpSweep, Batch: 1000}}, q...)
 			return Op{K: OpAdvance, D: int64(wait)}
+		case MacroPrunePredecessor:
+			var cand []*Sub
+			for _, sb := range m.LiveSubs() {
+				if sb.Cfg.Ordered && sb.Topic != nil && sb.Topic.Live {
+					cand = append(cand, sb)
+				}
+			}
+			if len(cand) == 0 {
+				continue
+			}
+			sb := cand[rapid.IntRange(0, len(cand)-1).Draw(t, "macro-sub")]
+			n := len(m.Msgs)
+			pub := Op{K: OpPublish, T: sb.Topic.Name, Msgs: []MsgSpec{
+				{Data: fmt.Sprintf(`{"i":%d}`, n), Attrs: map[string]string{"x": "x"}, Key: "K1"},
+				{Data: fmt.Sprintf(`{"i":%d}`, n+1), Attrs: map[string]string{"x": "x"}, Key: "K1"}}}
+			g.queue = []Op{{K: OpPull, S: sb.Name, Max: 1000}, {K: lazyAckOut, S: sb.Name},
+				{K: OpJob, Job: "completed-deliveries", D: 0, Batch: rapid.SampledFrom([]int{1, 100}).Draw(t, "batch")}, {K: OpPull, S: sb.Name, Max: 1000}}
+			return pub
 		case MacroDoubleSeek:
 			var cand []string
 			for _, sb := range m.LiveSubs() {
